@@ -21,7 +21,8 @@ META = {
         "timer lag), executed invocation after invocation against the stateful service model. Oracle: at every user "
         "function entry the backend record of that position is not terminal (except bodies of contexts recorded with "
         "ReplayChildren); every value a step delivers equals the generated ground truth (snapshotted at delivery; a third of "
-        "the steps' results are edited in place by the handler afterwards). Second stage: programs whose steps/children/"
+        "the steps' results are edited in place by the handler afterwards). The single-crash enumeration also runs over seven fixed "
+        "small programs (at-most-once steps without retry inside child contexts / branches / try, wait_for_callback, map with waits). Second stage: programs whose steps/children/"
         "conditions use a schema-checking custom serializer that rejects the recorded payloads from invocation k on. Non-trivial = execution with "
         ">=2 invocations in which >=1 completed operation is re-encountered; distinct = (program shape, interruption "
         "pattern = outcomes of the invocations + crash points)."
@@ -126,6 +127,22 @@ def enumerate_crash_points(ctx, base, props=PROPS):
     return n
 
 
+def _st(v, **k):
+    return {"op": "step", "beh": {"kind": "ret", "v": v}, "sem": k.pop("sem", "least"), "retry": k.pop("retry", {"kind": "none"}), **k}
+
+
+_ALL = {"completion": {"min": None, "tol": 3, "pct": None}}
+FIXED_ENUM = [
+    [{"op": "child", "body": [_st(1, sem="most")]}, _st(2)],
+    [{"op": "parallel", "branches": [[_st(1, sem="most")], [_st(2)]], "cfg": _ALL}, {"op": "wait", "secs": 1}, _st(3)],
+    [{"op": "try", "body": {"op": "child", "body": [_st(1, sem="most"), _st(2)]}, "catch": ["Exception"], "handler": []}, {"op": "wait", "secs": 1}],
+    [{"op": "wfcb"}, _st(1, sem="most")],
+    [{"op": "map", "items": [1, 2], "body": [_st(1), {"op": "wait", "secs": 1}, _st(2, sem="most")], "cfg": {"max_concurrency": None, **_ALL}}],
+    [{"op": "wfcond", "init": 0, "decisions": [["continue", 1], ["stop"]], "trans": "count"}, {"op": "child", "body": [{"op": "callback", "between": [_st(4)]}]}],
+    [{"op": "child", "body": [{"op": "step", "beh": {"kind": "fail_by_attempt", "k": 1, "err": "UserError", "v": 1}, "sem": "most", "retry": {"kind": "table", "max": 2, "delays": [1], "nonretry": []}}]}, _st(5)],
+]
+
+
 def shard(ctx):
     b = ctx.budget
     WC.run_generated(ctx, cases(), PROPS, n_cases=b["random_cases"], nontrivial=nontrivial, classes=classes)
@@ -143,6 +160,13 @@ def shard(ctx):
         total[0] += enumerate_crash_points(ctx, {**base, "line": []})
 
     t()
+    # the same enumeration for a fixed family of small programs (every operation kind in a nested position), so that
+    # e.g. "at-most-once step without retry inside a child context / branch dies, then the failed context is replayed"
+    # is covered by construction
+    for i, body in enumerate(FIXED_ENUM):
+        if ctx.nshards > 1 and i % ctx.nshards != ctx.shard % ctx.nshards:
+            continue
+        total[0] += enumerate_crash_points(ctx, {"prog": {"body": body}, "backend": {"response": "delta"}, "plan": {"crashes": []}, "sched": [{"mode": "seq"}], "line": [], "max_raises": 4})
     ctx.extra["crash_points_enumerated"] = total[0]
 
 
